@@ -127,13 +127,13 @@ fn cxx_scalar(w: u64) -> &'static str {
 
 /// One constructor parameter / accessor of a generated class.
 #[derive(Clone)]
-struct Param<'a> {
-    field: &'a Field,
-    payload: bool,
+pub struct Param<'a> {
+    pub field: &'a Field,
+    pub payload: bool,
 }
 
 impl Param<'_> {
-    fn key(&self) -> &str {
+    pub fn key(&self) -> &str {
         if self.payload {
             "payload"
         } else {
@@ -145,7 +145,7 @@ impl Param<'_> {
 /// Constructor parameters in the order the guide and the repository's own C++ test generator
 /// (scripts/generate_cxx_backend_tests.py) prescribe: the fields of the ancestors (root first,
 /// without payloads, condition flags and constrained fields), then the declaration's own.
-fn params<'a>(m: &Model<'a>, ty: &str) -> Vec<Param<'a>> {
+pub fn params<'a>(m: &Model<'a>, ty: &str) -> Vec<Param<'a>> {
     let decl = m.decl(ty);
     let cs = m.all_constraints(ty);
     let mut chain = m.d.ancestry(ty);
@@ -384,7 +384,7 @@ fn emit_unit(m: &Model, types: &[String], ns: &str) -> (String, Vec<String>, Vec
 }
 
 /// a value in which an array that has an `_elementsize_` field is empty (anywhere inside)
-fn empty_elementsize_array(m: &Model, ty: &str, v: &Val) -> bool {
+pub fn empty_elementsize_array(m: &Model, ty: &str, v: &Val) -> bool {
     let rec = match v {
         Val::Rec(r) => r,
         _ => return false,
@@ -437,7 +437,7 @@ fn flatten_elem(m: &Model, is_struct: Option<&str>, v: &Val, out: &mut Vec<u64>)
 }
 
 /// model value -> token stream in constructor-parameter order
-fn flatten(m: &Model, ty: &str, v: &Val, out: &mut Vec<u64>) {
+pub fn flatten(m: &Model, ty: &str, v: &Val, out: &mut Vec<u64>) {
     let rec = v.rec();
     for p in params(m, ty) {
         if p.payload {
@@ -498,20 +498,20 @@ fn flatten(m: &Model, ty: &str, v: &Val, out: &mut Vec<u64>) {
     }
 }
 
-enum OpIn {
+pub enum OpIn {
     Build(Val),
     Parse(Vec<u8>),
 }
 
-struct Op {
-    big: bool,
-    ty: String,
-    input: OpIn,
-    fn_idx: usize,
+pub struct Op {
+    pub big: bool,
+    pub ty: String,
+    pub input: OpIn,
+    pub fn_idx: usize,
 }
 
 #[derive(Debug, Clone)]
-enum OpOut {
+pub enum OpOut {
     Line(String),
     Died(String),
     NotRun,
@@ -522,28 +522,43 @@ enum OpOut {
 /// meaningful in the NDEBUG build, where they are on): returns the results and the index from
 /// which that mode was in force.
 fn run_driver(bin: &Path, task: &Path, n_ops: usize) -> (Vec<OpOut>, Option<usize>) {
+    run_driver_with(n_ops, GETTER_DEATHS, &bin.with_extension("out"), &|start, quiet| {
+        let mut c = Command::new("timeout");
+        c.args(["-s", "KILL", "120"])
+            .arg(bin)
+            .arg(task)
+            .arg(start.to_string())
+            .arg(if quiet { "0" } else { "1" })
+            .env("ASAN_OPTIONS", "detect_leaks=0:abort_on_error=0:color=never:allocator_may_return_null=0:max_allocation_size_mb=1024")
+            .env("UBSAN_OPTIONS", "print_stacktrace=0:color=never");
+        c
+    })
+}
+
+/// The announce/restart protocol shared by the out-of-process drivers (C++, Java): `make(start,
+/// quiet)` builds the command that executes the task file from operation `start`.
+pub fn run_driver_with(n_ops: usize, quiet_after: usize, out_file: &Path, make: &dyn Fn(usize, bool) -> Command) -> (Vec<OpOut>, Option<usize>) {
     let mut res: Vec<OpOut> = vec![OpOut::NotRun; n_ops];
     let mut start = 0usize;
     let mut restarts = 0;
     let mut quiet_from: Option<usize> = None;
     while start < n_ops && restarts < DEATH_CAP {
-        if restarts >= GETTER_DEATHS && quiet_from.is_none() {
+        if restarts >= quiet_after && quiet_from.is_none() {
             quiet_from = Some(start);
         }
-        let out = Command::new("timeout")
-            .args(["-s", "KILL", "120"])
-            .arg(bin)
-            .arg(task)
-            .arg(start.to_string())
-            .arg(if quiet_from.is_some() { "0" } else { "1" })
-            .env("ASAN_OPTIONS", "detect_leaks=0:abort_on_error=0:color=never:allocator_may_return_null=0:max_allocation_size_mb=1024")
-            .env("UBSAN_OPTIONS", "print_stacktrace=0:color=never")
-            .output();
+        // the driver's stdout goes to a file, not a pipe: it flushes after every announcement,
+        // and a write into a pipe costs a context switch each time
+        let of = match std::fs::File::create(out_file) {
+            Ok(f) => f,
+            Err(_) => break,
+        };
+        let out = make(start, quiet_from.is_some()).stdout(of).output();
         let out = match out {
             Ok(o) => o,
             Err(_) => break,
         };
-        let stdout = String::from_utf8_lossy(&out.stdout);
+        let stdout_bytes = std::fs::read(out_file).unwrap_or_default();
+        let stdout = String::from_utf8_lossy(&stdout_bytes);
         let mut cur: Option<usize> = None;
         let mut done = false;
         for l in stdout.lines() {
@@ -578,6 +593,9 @@ fn run_driver(bin: &Path, task: &Path, n_ops: usize) -> (Vec<OpOut>, Option<usiz
 }
 
 fn death_headline(stderr: &str, code: Option<i32>) -> String {
+    if let Some(l) = stderr.lines().find(|l| l.starts_with("Exception in thread") || l.contains("java.lang.") && l.contains("Error")) {
+        return format!("jvm:{}", l.chars().take(80).collect::<String>());
+    }
     for l in stderr.lines() {
         if let Some(p) = l.find("ERROR: AddressSanitizer:") {
             let rest = &l[p + 24..];
@@ -702,9 +720,8 @@ fn compile(dir: &Path, hdr: &Path, thorough: bool) -> Built {
                 }
             }
             Ok(o) => {
-                let e = String::from_utf8_lossy(&o.stderr);
-                let first = e.lines().find(|l| l.contains("error")).unwrap_or("").to_string();
-                b.error = Some(first);
+                // the whole diagnostic text: the caller attributes the errors to states
+                b.error = Some(String::from_utf8_lossy(&o.stderr).to_string());
                 return b;
             }
             Err(e) => {
@@ -821,18 +838,22 @@ fn evaluate(u: &Unit, res_a: &[OpOut], res_n: &[OpOut], quiet_from: Option<usize
         *c.entry("ndebug-ops-run-without-getters-on-invalid-views".into()).or_default() += ops.len().saturating_sub(q);
     }
     let mut inc = |k: &str| *c.entry(k.to_string()).or_default() += 1;
+    let mut rare_cache: std::collections::HashMap<(bool, String), Vec<&str>> = std::collections::HashMap::new();
     for (k, op) in ops.iter().enumerate() {
         let m = if op.big { &m_be } else { &m_le };
         let inl = if op.big { &inl_be } else { &inl_le };
         let is_struct = m.decl(&op.ty).is_struct();
-        let cls = classes::construct_classes(inl, &op.ty);
-        let mut rare: Vec<&str> = cls.iter().copied().filter(|c| ["padded-array", "payload-with-modifier", "elementsize-array", "optional", "enum-array", "array-modifier"].contains(c)).collect();
-        if inl.ancestry(&op.ty).iter().skip(1).any(|a| a.fields().iter().position(|f| f.is_payload()).map(|p| p + 1 < a.fields().len()).unwrap_or(false)) {
-            rare.push("fields-after-parent-payload");
-        }
-        if m.decl(&op.ty).parent().is_some() && m.decl(&op.ty).fields().iter().any(|f| pdlmc_core::rules::is_bitfield(inl, f) && pdlmc_core::rules::bitfield_width(inl, f).map(|w| w % 8 != 0).unwrap_or(false)) {
-            rare.push("child-with-sub-octet-fields");
-        }
+        let rare: &Vec<&str> = rare_cache.entry((op.big, op.ty.clone())).or_insert_with(|| {
+            let cls = classes::construct_classes(inl, &op.ty);
+            let mut rare: Vec<&str> = cls.iter().copied().filter(|c| ["padded-array", "payload-with-modifier", "elementsize-array", "optional", "enum-array", "array-modifier"].contains(c)).collect();
+            if inl.ancestry(&op.ty).iter().skip(1).any(|a| a.fields().iter().position(|f| f.is_payload()).map(|p| p + 1 < a.fields().len()).unwrap_or(false)) {
+                rare.push("fields-after-parent-payload");
+            }
+            if m.decl(&op.ty).parent().is_some() && m.decl(&op.ty).fields().iter().any(|f| pdlmc_core::rules::is_bitfield(inl, f) && pdlmc_core::rules::bitfield_width(inl, f).map(|w| w % 8 != 0).unwrap_or(false)) {
+                rare.push("child-with-sub-octet-fields");
+            }
+            rare
+        });
         for (build, res) in [("assert", &res_a[k]), ("ndebug", &res_n[k])] {
             let line = match res {
                 OpOut::Line(l) => l.clone(),
@@ -977,7 +998,7 @@ fn evaluate(u: &Unit, res_a: &[OpOut], res_n: &[OpOut], quiet_from: Option<usize
 
 /// Where two encodings first differ, in terms of the reference layout: the chunk kind and, in a
 /// bit-field group, the kind of the first member whose bits differ.
-fn diff_site(want: &model::Enc, got: &[u8], pos: usize, big: bool) -> String {
+pub fn diff_site(want: &model::Enc, got: &[u8], pos: usize, big: bool) -> String {
     let c = match want.chunks.iter().find(|c| c.start <= pos && pos < c.start + c.len.max(1)) {
         Some(c) => c,
         None => return "length".into(),
@@ -1063,12 +1084,40 @@ fn run_group(units: &[&Unit], dir: &Path, hdr: &Path, thorough: bool, t_cc: &std
     let built = compile(dir, hdr, thorough);
     t_cc.fetch_add(t0.elapsed().as_millis() as u64, std::sync::atomic::Ordering::Relaxed);
     if let Some(err) = &built.error {
+        let lines: Vec<&str> = err.lines().collect();
+        let first_error = |mentions: &dyn Fn(&str) -> bool| -> Option<String> {
+            for (i, l) in lines.iter().enumerate() {
+                if l.contains("error:") && (i.saturating_sub(4)..=i).any(|j| mentions(lines[j])) {
+                    return Some(l.to_string());
+                }
+            }
+            None
+        };
         if units.len() == 1 {
-            return vec![compile_failure(units[0], err)];
+            let e = first_error(&|_| true).unwrap_or_else(|| lines.first().copied().unwrap_or("").to_string());
+            return vec![compile_failure(units[0], &e)];
         }
+        // g++ names the header (s<id>_le.h) or the driver namespace (drv_s<id>le) of every error:
+        // drop exactly the states it names and recompile the rest; if nothing can be attributed,
+        // one translation unit per state
         let mut out = vec![];
+        let mut bad: Vec<usize> = vec![];
         for (k, u) in units.iter().enumerate() {
-            out.extend(run_group(&[*u], &dir.join(format!("u{k}")), hdr, thorough, t_cc, t_run, machinery_errors));
+            let pats = [format!("{}_le.h", u.ns), format!("{}_be.h", u.ns), format!("drv_{}le::", u.ns), format!("drv_{}be::", u.ns), format!("{}le::", u.ns), format!("{}be::", u.ns)];
+            if let Some(e) = first_error(&|l: &str| pats.iter().any(|p| l.contains(p.as_str()))) {
+                bad.push(k);
+                out.push(compile_failure(u, &e));
+            }
+        }
+        if bad.is_empty() {
+            for (k, u) in units.iter().enumerate() {
+                out.extend(run_group(&[*u], &dir.join(format!("u{k}")), hdr, thorough, t_cc, t_run, machinery_errors));
+            }
+            return out;
+        }
+        let rest: Vec<&Unit> = units.iter().enumerate().filter(|(k, _)| !bad.contains(k)).map(|(_, u)| *u).collect();
+        if !rest.is_empty() {
+            out.extend(run_group(&rest, &dir.join("rest"), hdr, thorough, t_cc, t_run, machinery_errors));
         }
         return out;
     }
